@@ -33,8 +33,11 @@ ASSUMPTIONS = [
 CANONICAL = {"XIX", "XX", "XXVIII"}
 
 
-def check_lists(s3, model, rr_model, out, info):
-    """rr_model: RRes list of the analysed model"""
+def check_lists(s3, model, rr_model, out, info, fragments=False):
+    """rr_model: RRes list of the analysed model. fragments=True: some residue arrives as two record blocks (two
+    Residue3D of one identity); the library derives base-phosphate/base-ribose classes per block, so "one class per
+    residue pair" and "no repeated entry" are not demanded of those two lists there - what "a residue" is is
+    ambiguous for them - while the self-contact, membership, order and class-soundness clauses are judged on identities"""
     from rnapolis.annotator import extract_base_interactions
 
     bi = extract_base_interactions(s3, model)
@@ -44,7 +47,7 @@ def check_lists(s3, model, rr_model, out, info):
     for name, lst in lists.items():
         seen = set()
         for it in lst:
-            if it in seen:
+            if it in seen and not (fragments and name in ("baseRibose", "basePhosphate")):
                 out.append(D(f"C11:{name}:repeated", f"{it.nt1.full_name}-{it.nt2.full_name} listed twice"))
             seen.add(it)
             a = by_ident.get(geomref.identity(it.nt1)[:3])
@@ -104,7 +107,7 @@ def check_lists(s3, model, rr_model, out, info):
             elif c not in allowed:
                 out.append(D(f"C11:{name}:class-not-implied", f"{it.nt1.full_name}->{it.nt2.full_name} {cls_obj.value}: contacts imply {sorted(allowed)}"))
         for (i, j), cnt in per_pair.items():
-            if cnt > 1:
+            if cnt > 1 and not fragments:
                 out.append(D(f"C11:{name}:several-classes-per-pair", f"{rr_model[i].ident}->{rr_model[j].ident} carries {cnt}"))
     info["bph"] += len(lists["basePhosphate"])
     info["br"] += len(lists["baseRibose"])
@@ -179,16 +182,16 @@ def check_outputs(s3, out, info):
     info["outputs_checked"] = info.get("outputs_checked", 0) + 1
 
 
-def evaluate(s3, models=(None,)):
+def evaluate(s3, models=(None,), merge=False):
     info = {"bph": 0, "br": 0, "noncanonical": 0, "pairs": 0, "min_margin": float("inf"), "skipped": False}
     out = []
     for m in models:
-        rr = geomref.from_structure3d(s3, m)
+        rr = geomref.from_structure3d(s3, m, merge=merge)
         idents = [r.ident for r in rr]
         if len(set(idents)) != len(idents):
             info["skipped"] = True
             continue
-        check_lists(s3, m, rr, out, info)
+        check_lists(s3, m, rr, out, info, fragments=merge)
     return out, info
 
 
@@ -217,7 +220,7 @@ def oracle(case):
         models = tuple(range(1, len(case["models"]) + 2))
     else:
         models = (None,)
-    ds, info = evaluate(s3, models)
+    ds, info = evaluate(s3, models, merge=bool(case.get("split")))
     if models == (None,) and case["kind"] in ("file", "mini") and not info.get("skipped"):
         check_outputs(s3, ds, info)
     case["_info11"] = info
@@ -307,8 +310,8 @@ def run_shard(spec) -> ShardResult:
         run_hypothesis(PROP_ID, c03.st_moved(files), oracle, seed=spec["seed"], max_examples=spec["examples"], result=res,
                        to_json=c03.to_json, classify=classify)
     elif spec["kind"] == "mini":
-        run_hypothesis(PROP_ID, gen3d.st_mini(files), oracle, seed=spec["seed"], max_examples=spec["examples"],
-                       result=res, to_json=c03.to_json, classify=classify)
+        run_hypothesis(PROP_ID, gen3d.st_mini(files, split=True), oracle, seed=spec["seed"], max_examples=spec["examples"],
+                       result=res, to_json=c03.to_json, classify=lambda c: (classify(c)[0], list(classify(c)[1]) + (["records-split"] if c.get("split") else [])))
     elif spec["kind"] == "steered-hbond":
         run_hypothesis(PROP_ID, gen3d.st_steered_hbond(files), oracle, seed=spec["seed"], max_examples=spec["examples"],
                        result=res, to_json=c03.to_json, classify=lambda c: (classify(c)[0], list(classify(c)[1]) + [f"steered-{c['what']}-distance"]))
